@@ -172,17 +172,21 @@ REV_C_STATEMENTS = [
     ('target', 'ez', "executable('ez', 'e.c')"),
 ]
 REV_EXTRA_C_STATEMENT = ('target', 'ek', "executable('ek', 'e.c')")
-REV_LISTS = ['options', 'suboptions', 'statements']
+# languages of project() beyond the one the targets are written in (order neither alphabetical nor reverse); the C project only
+REV_LANGUAGES = [('language', 'fortran', ''), ('language', 'cpp', '')]
+REV_EXTRA_LANGUAGE = ('language', 'objc', '')
+REV_LISTS = ['options', 'suboptions', 'statements', 'languages']
 
 
 def rev_present(lang: T.Optional[str]) -> T.Dict[str, list]:
     return {'options': list(REV_OPTIONS), 'suboptions': list(REV_SUB_OPTIONS),
-            'statements': list(REV_STATEMENTS) + (list(REV_C_STATEMENTS) if lang else [])}
+            'statements': list(REV_STATEMENTS) + (list(REV_C_STATEMENTS) if lang else []),
+            'languages': list(REV_LANGUAGES) if lang else []}
 
 
 def rev_extra(lang: T.Optional[str], which: str):
     return {'options': REV_EXTRA_OPTION, 'suboptions': REV_EXTRA_SUB_OPTION,
-            'statements': REV_EXTRA_C_STATEMENT if lang else REV_EXTRA_STATEMENT}[which]
+            'statements': REV_EXTRA_C_STATEMENT if lang else REV_EXTRA_STATEMENT, 'languages': REV_EXTRA_LANGUAGE}[which]
 
 
 def rev_edits(lang: T.Optional[str], which: str) -> T.List[T.Tuple[str, int]]:
@@ -190,7 +194,7 @@ def rev_edits(lang: T.Optional[str], which: str) -> T.List[T.Tuple[str, int]]:
     decls = rev_present(lang)[which]
     n = len(decls)
     out = [('insert', i) for i in range(n)] + [('swap', i) for i in range(n - 1)]
-    if which != 'statements':
+    if which not in ('statements', 'languages'):
         out += [('retype', i) for i in range(n) if decls[i][2] is not None]
     out += [('delete', i) for i in range(n + 1)]
     if which == 'statements' and lang:
@@ -218,6 +222,8 @@ def rev_apply(decls: list, edit: T.Tuple[str, int], extra) -> list:
 
 def rev_edited_kind(decls: list, edit: T.Tuple[str, int], extra, which: str) -> str:
     """kind of the declaration the edit is about: option / dependency / target"""
+    if which == 'languages':
+        return 'language'
     if which != 'statements':
         return 'option' if which == 'options' else 'subproject-option'
     k, i = edit
@@ -230,7 +236,8 @@ def rev_project(lang: T.Optional[str], lists: T.Dict[str, list]) -> T.Dict[str, 
              'subprojects/sp/meson.options': ''.join(d[1] + '\n' for d in sub)}
     for n in ('revm', 'revz', 'reva', 'revk'):
         files['pc/%s.pc' % n] = 'Name: %s\nDescription: %s\nVersion: 1.0\nCflags: -DHAVE_%s\nLibs:\n' % (n, n, n.upper())
-    mb = ["project('rev'%s, version: '1.0', meson_version: '>=1.1')" % (", '%s'" % lang if lang else ''), 'cd = configuration_data()']
+    langs = ([lang] if lang else []) + [d[1] for d in lists.get('languages', [])]
+    mb = ["project('rev'%s, version: '1.0', meson_version: '>=1.1')" % ''.join(", '%s'" % x for x in langs), 'cd = configuration_data()']
     for name, decl, _ in opts:
         if "'array'" in decl:
             mb.append("cd.set_quoted('O_%s', ' '.join(get_option('%s')))" % (name.upper(), name))
